@@ -739,7 +739,7 @@ const XML_NAMES: &[&str] = &[
 const XML_TEXTS: &[&str] = &[
     "", "NAN", "INF", "-INF", "1e999", "-1", "99999999999999999999", "0x10", "true", "TRUE", "!!!!", "AAAA", "AA=A", " ",
     "null", "RBX0", "RBXFFFFFFFF", "1 2 3", "0 0 0 0 0 0", "1,2", "&#0;", "&bogus;", "-0", "4294967296", "1.5", "rbxasset://x",
-    "00000000000000000000000000000000", "zzzzzzzzzzzzzzzzzzzzzzzzzzzzzzzz", "1e400", "nan", "+INF", "0x", "-", ".", "1.2.3", "+-1",
+    "00000000000000000000000000000000", "zzzzzzzzzzzzzzzzzzzzzzzzzzzzzzzz", "QUI", "QQ", "AAA", "AA", "QUJDRA", "QUJDREU", "AAAAAA==", "AAAAAAA=", "1e400", "nan", "+INF", "0x", "-", ".", "1.2.3", "+-1",
     "\u{661}\u{662}\u{663}", "1 ", " 1", "1\n", "QUJD QUJD", "QUJD\nQUJD", "=QUJD", "QUJ", "Q", "////", "1e-400", "-2147483649", "2147483648",
     "18446744073709551616", "-9223372036854775809", "0.1e", "true false", "rbxasset://\u{0}", "ffffffffffffffffffffffffffffffff", "0000000000000000000000000000000g",
     "123456789012345678901234567890123456789012345678901234567890123456789012345678901234567890123456789012345678901234567890", "AAAAAAAAAAAAAAAAAAAAAAAAAAAAAAAAAAAAAAAAAAAAAAAAAAAAAAAAAAAAAAAAAAAAAAAAAAAAAAAA",
